@@ -642,7 +642,8 @@ Definition observe (x : st) : obs :=
      o_xprobe := hget (csnap x) K_XPROBE;
      o_xcfg := match hget (csnap x) K_XCFG with Some _ => true | None => false end;
      o_xdel := match hget (csnap x) K_XDEL with Some _ => true | None => false end;
-     o_mime := is_val (hget (csnap x) K_CT) V_MIME;
+     (* net/http does not send Content-Type with a 304 *)
+     o_mime := match cm x with Some 304 => false | _ => is_val (hget (csnap x) K_CT) V_MIME end;
      o_loc := is_val (hget (csnap x) K_LOC) V_THERE |}.
 
 Definition opt_beq (a b : option bytes) : bool :=
@@ -851,7 +852,9 @@ Definition spec (errtext : Z -> bytes) (c : cfg) (path : bytes) (ops : list op) 
               opt_beq (o_xprobe o) (hget (p_snap p) K_XPROBE) &&
               beq (o_view o) (p_body p) &&
               (* mime's Content-Type stays unless the handler sets its own *)
-              Bool.eqb (o_mime o) (match mime_ct c path with Some _ => negb (sets_ct ops) | None => false end))
+              Bool.eqb (o_mime o) (match mime_ct c path with
+                                   | Some _ => negb (sets_ct ops) && negb (o_status o =? 304)
+                                   | None => false end))
     else if (400 <=? ret) && (ret <=? 999) then
       (o_status o =? ret) && negb (o_garbled o) && Nat.eqb (o_sup o) 0 &&
       beq (o_view o) (error_body_table errtext c path ret err)
